@@ -73,6 +73,8 @@ def builder_chain(e, getters):
         src = None
         if a.get("k") == "call" and hir.is_local(a["args"][0], "self"):
             src = getters.get(hir.callee(a))
+        elif a.get("k") == "field" and a["name"].isdigit() and hir.is_local(hir.peel(a["e"]), "self"):
+            src = int(a["name"])          # the component read directly (`self.0`): what the getter of that position returns
         if src is None:
             raise Unrecognised(f"write_code argument not a known getter: {hirpp.expr(a)}")
         return builder_chain(e["args"][0], getters) + [("code", src)]
